@@ -75,6 +75,19 @@ type RWMutex struct {
 	waiting  map[int]bool // reader tokens blocked in RLock
 	granted  map[int]bool
 	nextTok  int
+	rheld    map[int]int // read locks held, per managed thread id
+}
+
+// ReentrantBlocked returns the ids of threads that are blocked in RLock while already holding
+// a read lock of this mutex (the culprits of a writer-preference deadlock).
+func (m *RWMutex) ReentrantBlocked(s *vsched.Sched) []int {
+	var out []int
+	for _, b := range s.BlockedThreads() {
+		if b.Kind == "RLock" && b.Obj == interface{}(m) && m.rheld[b.Thread] > 0 {
+			out = append(out, b.Thread)
+		}
+	}
+	return out
 }
 
 func (m *RWMutex) Lock() {
@@ -160,6 +173,10 @@ func (m *RWMutex) RLock() {
 	if s.Aborting() {
 		return
 	}
+	if m.rheld == nil {
+		m.rheld = map[int]int{}
+	}
+	m.rheld[s.CurID()]++
 	if m.granted[tok] {
 		delete(m.granted, tok)
 		return
@@ -178,6 +195,10 @@ func (m *RWMutex) TryRLock() bool {
 		return false
 	}
 	m.readers++
+	if m.rheld == nil {
+		m.rheld = map[int]int{}
+	}
+	m.rheld[s.CurID()]++
 	return true
 }
 
@@ -195,6 +216,7 @@ func (m *RWMutex) RUnlock() {
 	}
 	s.Point("RUnlock", m, nil)
 	m.readers--
+	m.rheld[s.CurID()]--
 }
 
 func (m *RWMutex) RLocker() Locker { return (*rlocker)(m) }
